@@ -262,6 +262,12 @@ func (self *Interpreter) infixHelper(lhs ast.AnalyzedExpression, rhs ast.Analyze
 	}
 
 	switch lhs.Type().Kind() {
+	case ast.NeverTypeKind:
+		// The left operand diverges (e.g. `{ return 3; } + 1`): evaluating it yields the interrupt that ends the operation.
+		if _, i := self.expression(lhs); i != nil {
+			return nil, nil, i
+		}
+		panic("Unreachable: an expression of type `never` produced a value")
 	case ast.IntTypeKind:
 		var intRes int64
 
